@@ -116,3 +116,22 @@ func debugDep(p *Program, arg string) int {
 	}
 	return 0
 }
+
+// debugOrigin: arg "func|tNN": origin verdict of a value.
+func debugOrigin(p *Program, arg string) int {
+	parts := strings.Split(arg, "|")
+	e := sharedE2(p)
+	for _, fn := range p.allRepoFuncs() {
+		if !strings.HasSuffix(fn.String(), parts[0]) {
+			continue
+		}
+		for _, b := range fn.Blocks {
+			for _, in := range b.Instrs {
+				if v, ok := in.(ssa.Value); ok && (len(parts) < 2 || v.Name() == parts[1]) {
+					fmt.Printf("%s %s = %s : %s\n", shortFn(fn), v.Name(), v.String(), e.origin(v, 0))
+				}
+			}
+		}
+	}
+	return 0
+}
